@@ -15,7 +15,7 @@ use std::time::Instant;
 use thiserror::Error;
 use tiny_keccak::{Hasher as _, Keccak};
 
-use crate::circuit::{calculate_rln_witness, qap::CircomReduction, Curve};
+use crate::circuit::{qap::CircomReduction, try_calculate_rln_witness, Curve};
 use crate::hashers::{hash_to_field, poseidon_hash};
 use crate::poseidon_tree::*;
 use crate::public::RLN_IDENTIFIER;
@@ -304,6 +304,7 @@ pub fn random_rln_witness(tree_height: usize) -> RLNWitnessInput {
 
 pub fn proof_values_from_witness(rln_witness: &RLNWitnessInput) -> Result<RLNProofValues> {
     message_id_range_check(&rln_witness.message_id, &rln_witness.user_message_limit)?;
+    merkle_path_check(rln_witness)?;
 
     // y share
     let a_0 = rln_witness.identity_secret;
@@ -628,6 +629,7 @@ pub fn inputs_for_witness_calculation(
     rln_witness: &RLNWitnessInput,
 ) -> Result<[(&str, Vec<Fr>); 7]> {
     message_id_range_check(&rln_witness.message_id, &rln_witness.user_message_limit)?;
+    merkle_path_check(rln_witness)?;
 
     let mut identity_path_index = Vec::with_capacity(rln_witness.identity_path_index.len());
     rln_witness
@@ -663,7 +665,8 @@ pub fn generate_proof(
     // If in debug mode, we measure and later print time take to compute witness
     #[cfg(test)]
     let now = Instant::now();
-    let full_assignment = calculate_rln_witness(inputs, graph_data);
+    let full_assignment =
+        try_calculate_rln_witness(inputs, graph_data).map_err(ProofError::WitnessError)?;
 
     #[cfg(test)]
     println!("witness generation took: {:.2?}", now.elapsed());
@@ -805,6 +808,22 @@ pub fn rln_witness_to_bigint_json(rln_witness: &RLNWitnessInput) -> Result<serde
     });
 
     Ok(inputs)
+}
+
+/// Checks that the Merkle path of a witness is well formed: one direction value per path element,
+/// each of them 0 or 1 (the circuit cannot be satisfied otherwise).
+fn merkle_path_check(rln_witness: &RLNWitnessInput) -> Result<()> {
+    if rln_witness.path_elements.len() != rln_witness.identity_path_index.len() {
+        return Err(color_eyre::Report::msg(
+            "path_elements and identity_path_index have different lengths",
+        ));
+    }
+    if rln_witness.identity_path_index.iter().any(|v| *v > 1) {
+        return Err(color_eyre::Report::msg(
+            "identity_path_index contains a value which is not 0 or 1",
+        ));
+    }
+    Ok(())
 }
 
 pub fn message_id_range_check(message_id: &Fr, user_message_limit: &Fr) -> Result<()> {
